@@ -1,7 +1,7 @@
 """C13 - each request reaches its registered handler and always gets exactly one answer."""
 import ast
 
-from ..astutil import make_cfg, call_name, fn_calls, must_pass, node_calls, walk_no_nested, kwarg
+from ..astutil import strip_doc, make_cfg, call_name, fn_calls, must_pass, node_calls, walk_no_nested, kwarg
 from ..paths import enum_paths, eval_bool
 from .c12 import analyse_decorate
 
@@ -32,124 +32,127 @@ def check(ctx):
     ctx.clause = "1-route-registry"
     rt = ctx.need(br.methods.get("route"), "Bromelia.route")
     params = [a.arg for a in rt.args.args if a.arg != "self"]
-    writes = []
-    for n in ast.walk(rt):
-        if isinstance(n, ast.Dict):
-            for k, v in zip(n.keys, n.values):
-                if isinstance(v, ast.Dict):
-                    for k2, v2 in zip(v.keys, v.values):
-                        writes.append((ast.unparse(k), ast.unparse(k2), ast.unparse(v2)))
-        if isinstance(n, ast.Call) and isinstance(n.func, ast.Attribute) and n.func.attr == "update" \
-                and isinstance(n.func.value, ast.Subscript) and ast.unparse(n.func.value.value) == "self.routes":
-            arg = n.args[0]
-            d = arg
-            if isinstance(arg, ast.Name):
-                for a in ast.walk(rt):
-                    if isinstance(a, ast.Assign) and isinstance(a.targets[0], ast.Name) and a.targets[0].id == arg.id:
-                        d = a.value
-            if isinstance(d, ast.Dict):
-                for k2, v2 in zip(d.keys, d.values):
-                    writes.append((ast.unparse(n.func.value.slice), ast.unparse(k2), ast.unparse(v2)))
-        if isinstance(n, ast.Assign) and isinstance(n.targets[0], ast.Subscript) and isinstance(n.targets[0].value, ast.Subscript) \
-                and ast.unparse(n.targets[0].value.value) == "self.routes":
-            writes.append((ast.unparse(n.targets[0].value.slice), ast.unparse(n.targets[0].slice), ast.unparse(n.value)))
+    from .. import sym
+    fns = [n for n in ast.walk(rt) if isinstance(n, (ast.FunctionDef, ast.AsyncFunctionDef))]
     fnparam = None
-    for n in ast.walk(rt):
-        if isinstance(n, ast.FunctionDef) and n.name != "route" and n.args.args and not n.args.vararg:
+    for n in fns:
+        if n is not rt and len(n.args.args) == 1 and not n.args.vararg:
             fnparam = n.args.args[0].arg
-    ok = len(writes) >= 2 and len(params) == 2 and all(w == (params[0], params[1], fnparam) for w in writes)
-    ctx.decide(ok, "R-TABLE/routes", f"{br.qual}.route", br.where(rt),
+    ROUTES = ("attr", ("name", "self"), "routes")
+    rows, okw, n_w = [], len(params) == 2 and fnparam is not None, 0
+    for fn_ in fns:
+        if not any(isinstance(x, ast.Attribute) and x.attr == "routes" for x in walk_no_nested(fn_)):
+            continue
+        for p_ in sym.Interp().run(strip_doc(fn_.body)):
+            entries, clobbers = sym.table_writes(p_, lambda t: t == ROUTES)
+            if not entries and p_.term == "raise":
+                continue
+            n_w += len(entries)
+            rows.append(([tuple(sym.show(x) for x in e) for e in entries], clobbers))
+            okw = okw and len(entries) == 1 and clobbers == 0 and len(params) == 2 and \
+                entries[0] == (("name", params[0]), ("name", params[1]), ("name", fnparam))
+    ctx.decide(okw and n_w >= 1, "R-TABLE/routes", f"{br.qual}.route", br.where(rt),
                "registration writes routes[application_id][command_code] = handler",
-               f"registration writes {writes}; expected routes[{params[0] if params else '?'}][{params[1] if len(params) > 1 else '?'}] = handler",
-               key="writer")
+               f"registration writes (entries, buckets replaced) = {rows}; expected routes[{params[0] if params else '?'}]"
+               f"[{params[1] if len(params) > 1 else '?'}] = handler on every path without replacing an existing bucket", key="writer")
     gc = ctx.need(br.methods.get("get_request_callback"), "Bromelia.get_request_callback")
     p = [a.arg for a in gc.args.args if a.arg != "self"][0]
-    env = {}
-    for s in gc.body:
-        if isinstance(s, ast.Assign) and isinstance(s.targets[0], ast.Name):
-            env[s.targets[0].id] = ast.unparse(s.value)
-    rets = [n.value for n in walk_no_nested(gc) if isinstance(n, ast.Return) and n.value is not None]
-    ok = False
-    got = None
-    if len(rets) == 1 and isinstance(rets[0], ast.Subscript) and isinstance(rets[0].value, ast.Subscript) \
-            and ast.unparse(rets[0].value.value) == "self.routes":
-        k1 = ast.unparse(rets[0].value.slice)
-        k2 = ast.unparse(rets[0].slice)
-        k1, k2 = env.get(k1, k1), env.get(k2, k2)
-        got = (k1, k2)
-        ok = got == (f"{p}.header.application_id", f"{p}.header.command_code")
-    ctx.decide(ok, "R-TABLE/routes", f"{br.qual}.get_request_callback", br.where(gc),
+    P = sym.S(p)
+    got, ok = [], True
+    for p_ in sym.Interp().run(strip_doc(gc.body), sym.PathState({p: P}, [], [])):
+        if p_.term != "return":
+            ok = False
+            continue
+        v = p_.value
+        got.append(sym.show(v))
+        ok = ok and v == ("sub", ("sub", ROUTES, ("attr", ("attr", P, "header"), "application_id")),
+                          ("attr", ("attr", P, "header"), "command_code"))
+    ctx.decide(ok and bool(got), "R-TABLE/routes", f"{br.qual}.get_request_callback", br.where(gc),
                "lookup reads routes[request.header.application_id][request.header.command_code]",
-               f"lookup reads routes[{got[0] if got else '?'}][{got[1] if got else '?'}]: not the (Application-ID, command code) "
-               f"of the request in the order the registration uses", key="reader")
+               f"lookup returns {got}: not routes[(Application-ID)][(command code)] of the request in the order the registration uses",
+               key="reader")
 
     # ---- 2/3 callback_route ------------------------------------------------------------------
     ctx.clause = "2-exactly-one-answer"
     cb = ctx.need(br.methods.get("callback_route"), "Bromelia.callback_route")
     construct = f"{br.qual}.callback_route"
     rp = [a.arg for a in cb.args.args if a.arg != "self"][0]
-    npaths = 0
-    for isans in (True, False):
-        def atom(e, isans=isans):
-            t = ast.unparse(e)
-            if t == "isinstance(answer, DiameterAnswer)":
-                return isans
-            return None
-        for pth in enum_paths(cb.body, decide=lambda t, ev: eval_bool(t, atom), loops="skip"):
-            npaths += 1
-            sends = [c for c, _ in pth.calls() if call_name(c) == "self.send_message"]
-            handler_exc = any(e[0] == "try-exc" and any("callback_function" in ast.unparse(s) for s in e[1].body) for e in pth.events)
-            barrier_exc = any(e[0] == "try-exc" and not any("callback_function" in ast.unparse(s) for s in e[1].body) for e in pth.events)
-            if handler_exc and isans:
-                continue      # handler raised => answer = None => not an answer
-            case = f"answer_is_DiameterAnswer={isans},handler_raised={handler_exc},barrier_broken={barrier_exc},exit={pth.term}"
-            ok = len(sends) == 1 and pth.term in ("fall", "return", "raise")
-            if pth.term == "raise":
-                e = pth.term_node.exc
-                ok = ok and "BromeliaException" in ast.unparse(e)
-            ctx.decide(ok, "R-MUSTPASS/one-send", construct, br.where(cb), f"{case}: one send",
-                       f"{case}: self.send_message is called {len(sends)} time(s) on this path - the peer gets "
-                       f"{'no answer' if not sends else 'more than one answer'}", key=case)
-            # what is sent
-            if len(sends) == 1:
-                arg = ast.unparse(sends[0].args[0]) if sends[0].args else None
-                stm = {}
-                for s in pth.stmts():
-                    if isinstance(s, ast.Assign) and isinstance(s.targets[0], ast.Name):
-                        stm[s.targets[0].id] = ast.unparse(s.value)
-                src = stm.get(arg)
-                if isans:
-                    ok2 = src == f"decorate_answer(answer, {rp})"
-                    bad = f"an answer returned by the handler is sent as `{src}` instead of decorate_answer(answer, request)"
-                else:
-                    ok2 = src == f"self.create_error_answer({rp})"
-                    bad = f"without a handler answer the peer is sent `{src}` instead of create_error_answer(request)"
-                ctx.decide(ok2, "R-FLOW/what-is-sent", construct, br.where(sends[0]), f"{case}: sends {src}", f"{case}: {bad}",
-                           key="sent:" + case)
-    ctx.floor("callback_route_paths", npaths, 6)
-    # handler invoked once, with the request, via the looked-up callback
-    calls = [c for c in fn_calls(cb) if isinstance(c.func, ast.Name) and c.func.id == "callback_function"]
-    src_cb = [ast.unparse(s.value) for s in walk_no_nested(cb) if isinstance(s, ast.Assign) and isinstance(s.targets[0], ast.Name)
-              and s.targets[0].id == "callback_function"]
-    ok = len(calls) == 1 and [ast.unparse(a) for a in calls[0].args] == [rp] and src_cb == [f"self.get_request_callback({rp})"]
-    ctx.decide(ok, "R-TABLE/routes", construct, br.where(cb), "the looked-up handler is invoked once with the request",
-               f"handler invocation: {[ast.unparse(c) for c in calls]} from {src_cb}", key="invoke_once")
+    # decided on terms (bsa.sym): REQ = the request, H = the looked-up handler applied to it
+    from .. import sym
+    REQ, SELF = sym.S(rp), ("name", "self")
+    LOOK = ("call", ("attr", SELF, "get_request_callback"), (REQ,), ())
+    Hc = ("call", LOOK, (REQ,), ())
+    it = sym.Interp(fold=lambda e: repo.fold(m, e), log_calls=True)
+    paths = it.run(strip_doc(cb.body), sym.PathState({rp: REQ}, [], []))
+    npaths, n_handler_exc, wrapped_ok, invoked_ok, seen_invoked = 0, 0, True, True, 0
+    reraise_path, n_untested = False, 0
+    for p_ in paths:
+        excs = [c[1] for c, tv in p_.conds if isinstance(c, tuple) and c[0] == "exc"]
+        barrier_exc = any("BrokenBarrier" in x for x in excs)
+        handler_exc = any(x.split(".")[-1] in ("Exception", "BaseException") for x in excs)
+        tested = [(c[2][0], tv) for c, tv in p_.conds if isinstance(c, tuple) and c[0] == "call" and c[1] == ("name", "isinstance")
+                  and len(c[2]) == 2 and c[2][1] == ("name", "DiameterAnswer")]
+        if not tested and handler_exc and p_.term == "raise":
+            reraise_path = True       # the handler's exception leaves callback_route: no answer is sent
+            continue
+        if len(tested) != 1:
+            n_untested += 1
+            continue
+        X, isans = tested[0]
+        if handler_exc:
+            n_handler_exc += 1
+            wrapped_ok = wrapped_ok and X is None
+            if isans:
+                continue          # the handler raised => the value under test is None => not an answer
+        else:
+            invoked_ok = invoked_ok and X == Hc and len([e for e in p_.effects if e[0] == "ecall" and e[1] == Hc]) == 1
+            seen_invoked += 1
+        npaths += 1
+        sends = [e[1] for e in p_.effects if e[0] == "ecall" and isinstance(e[1], tuple) and e[1][0] == "call"
+                 and e[1][1] == ("attr", SELF, "send_message")]
+        case = f"answer_is_DiameterAnswer={isans},handler_raised={handler_exc},barrier_broken={barrier_exc},exit={p_.term}"
+        ok = len(sends) == 1 and p_.term in ("fall", "return", "raise")
+        if p_.term == "raise":
+            ok = ok and "BromeliaException" in sym.show(p_.value)
+        ctx.decide(ok, "R-MUSTPASS/one-send", construct, br.where(cb), f"{case}: one send",
+                   f"{case}: self.send_message is called {len(sends)} time(s) on this path - the peer gets "
+                   f"{'no answer' if not sends else 'more than one answer'}", key=case)
+        if len(sends) == 1:
+            arg = sends[0][2][0] if sends[0][2] else (dict(sends[0][3]).get("msg"))
+            if isans:
+                ok2 = arg == ("call", ("name", "decorate_answer"), (X, REQ), ())
+                bad = f"an answer returned by the handler is sent as `{sym.show(arg)}` instead of decorate_answer(answer, request)"
+            else:
+                ok2 = arg == ("call", ("attr", SELF, "create_error_answer"), (REQ,), ())
+                bad = f"without a handler answer the peer is sent `{sym.show(arg)}` instead of create_error_answer(request)"
+            ctx.decide(ok2, "R-FLOW/what-is-sent", construct, br.where(cb), f"{case}: sends {sym.show(arg)[:60]}", f"{case}: {bad}",
+                       key="sent:" + case)
+    if n_untested and npaths:
+        ctx.undecided("R-MUSTPASS/one-send", construct, br.where(cb), f"{n_untested} path(s) without exactly one "
+                      f"isinstance(<answer>, DiameterAnswer) decision", key="isinstance")
+    ctx.decide(npaths > 0 or not n_untested, "R-DOM/handler-wrapped", construct, br.where(cb),
+               "the fallback branch is selected by isinstance(<handler result>, DiameterAnswer)",
+               "the fallback (error answer) branch is not selected by an isinstance(<handler result>, DiameterAnswer) test: a handler "
+               "that returns something else than a DiameterAnswer is not answered with the error answer", key="nonanswer_test")
+    ctx.decide(invoked_ok and seen_invoked > 0, "R-TABLE/routes", construct, br.where(cb),
+               "the looked-up handler is invoked once with the request",
+               "the value tested/sent is not the result of invoking self.get_request_callback(request)(request) exactly once",
+               key="invoke_once")
     ctx.clause = "3-handler-wrapped"
-    ok = False
+    reraise = reraise_path
     for n in walk_no_nested(cb):
-        if isinstance(n, ast.Try) and calls and any(c is calls[0] for s in n.body for c in ast.walk(s)):
+        if isinstance(n, ast.Try):
             for h in n.handlers:
-                if h.type is None or ast.unparse(h.type) in ("Exception", "BaseException"):
-                    sets_none = any(isinstance(s, ast.Assign) and ast.unparse(s) == "answer = None" for s in h.body)
-                    reraises = any(isinstance(s, ast.Raise) for s in h.body)
-                    ok = sets_none and not reraises
-    ctx.decide(ok, "R-DOM/handler-wrapped", construct, br.where(cb),
-               "handler call is inside try/except Exception that substitutes `answer = None`",
+                if (h.type is None or ast.unparse(h.type) in ("Exception", "BaseException")) and \
+                        any(isinstance(x, ast.Raise) for x in ast.walk(h)):
+                    reraise = True
+    ctx.decide(n_handler_exc > 0 and wrapped_ok and not reraise, "R-DOM/handler-wrapped", construct, br.where(cb),
+               "handler call is inside try/except Exception after which the answer under test is None",
                "the handler call is not wrapped by an `except Exception` that falls through to the error answer", key="wrapped")
-    tests = [ast.unparse(n.test) for n in walk_no_nested(cb) if isinstance(n, ast.If)]
-    ctx.decide("not isinstance(answer, DiameterAnswer)" in tests, "R-DOM/handler-wrapped", construct, br.where(cb),
-               "non-answer branch is `not isinstance(answer, DiameterAnswer)`",
-               f"the fallback branch is selected by {tests}", key="nonanswer_test")
+    if npaths and not reraise:
+        ctx.floor("callback_route_paths", npaths, 6)
+    else:
+        ctx.count("callback_route_paths", npaths)
     ctx.advisory("library errors derive from BaseException and escape `except Exception` (outside the property's quantifier)")
 
     # ---- 2a/2b guards in decorate_answer ---------------------------------------------------------
